@@ -141,8 +141,12 @@ def kcells(n, split1_from=None, split2_from=None, ncodes=Q.NCODES):
     return cells
 
 
+_OPERAND_START = [Q.TAG, Q.WILD, Q.NEG, Q.LPAR, Q.LBRACK, Q.LBRACE]
+
+
 def _len5_first_spelling():
-    return [dict(c, VP_N=5, VP_V=0) for c in kcells(5, split2_from=5) if c["VP_LEN"] == 5]
+    """length-5 lists that begin with a token an operand can begin with, first spelling of every kind"""
+    return [{"VP_LEN": 5, "VP_K0": k, "VP_N": 5, "VP_V": 0} for k in _OPERAND_START]
 
 
 def _kf_closer_as_term(ks):
@@ -321,7 +325,7 @@ def _term_hits(mode, term, letter):
 def or_law(sh: int, qa: int, qb: int, x0: str, x1: str, x2: str, x3: str, x4: str) -> bool:
     """
     pre: 0 <= sh < len(SHAPES) and _pin("VP_SH", sh)
-    pre: 0 <= qa < R.M(6) and 0 <= qb < R.M(6) and _pin("VP_QA", qa)
+    pre: 0 <= qa < R.M(6) and 0 <= qb < R.M(6) and _pin("VP_QA", qa) and _pin("VP_QB", qb)
     pre: _tags([x0, x1, x2, x3, x4], SHAPES[sh])
     post: _
     """
@@ -333,7 +337,7 @@ def or_law(sh: int, qa: int, qb: int, x0: str, x1: str, x2: str, x3: str, x4: st
 def and_laws(sh: int, qa: int, qb: int, x0: str, x1: str, x2: str, x3: str, x4: str) -> bool:
     """
     pre: 0 <= sh < len(SHAPES) and _pin("VP_SH", sh)
-    pre: 0 <= qa < R.M(6) and 0 <= qb < R.M(6) and _pin("VP_QA", qa)
+    pre: 0 <= qa < R.M(6) and 0 <= qb < R.M(6) and _pin("VP_QA", qa) and _pin("VP_QB", qb)
     pre: _tags([x0, x1, x2, x3, x4], SHAPES[sh])
     post: _
     """
@@ -368,10 +372,7 @@ def and_assoc(sh: int, qa: int, qb: int, qc: int, x0: str, x1: str, x2: str, x3:
     """
     h = build(SHAPES[sh], [x0, x1, x2, x3, x4])
     a, b, c = SUBQ[qa], SUBQ[qb], SUBQ[qc]
-    left = hit(f"({a} && {b}) && {c}", h)
-    right = hit(f"{a} && ({b} && {c})", h)
-    flat = hit(f"{a} && {b} && {c}", h)
-    return left == right and flat == left
+    return hit(f"({a} && {b}) && {c}", h) == hit(f"{a} && ({b} && {c})", h)
 
 
 def term_modes(sh: int, qa: int, x0: str, x1: str, x2: str, x3: str, x4: str) -> bool:
@@ -475,17 +476,18 @@ HARNESSES = [
     R.H("parse_total", _TP,
         quick=R.tier(cells=kcells(3, split1_from=3), env={"VP_N": 3}, timeout=300,
                      bound="every token-kind list of length <= 3 over the 13 token kinds, every spelling variant"),
-        thorough=R.tier(cells=kcells(4, split1_from=3, split2_from=4) + _len5_first_spelling(), env={"VP_N": 4},
-                        timeout=600,
+        thorough=R.tier(cells=kcells(4, split1_from=3) + _len5_first_spelling(), env={"VP_N": 4},
+                        timeout=1800, path_timeout=30,
                         bound="every token-kind list of length <= 4 over the 13 token kinds, every spelling variant; "
-                              "length 5 with the first spelling of each kind (a, ?, &&)"),
+                              "length 5 beginning with a term, wildcard, ~ or opening symbol, with the first "
+                              "spelling of each kind (a, ?, &&)"),
         what="the real parser raises nothing but ValueError, and every sentence of the documented grammar compiles",
         oracle="models/query_ref.py in_grammar (recursive-descent recogniser written from the QueryHandler docstring)",
         stubs=_TOK, outside="queries longer than the bound; term spellings other than a, \"a\", a*"),
     R.H("parse_rejects_unbalanced", _TP,
         quick=R.tier(cells=kcells(3, split1_from=3), env={"VP_N": 3}, timeout=300,
                      bound="every token-kind list of length <= 3 over the 13 token kinds, every spelling variant"),
-        thorough=R.tier(cells=kcells(4, split1_from=3, split2_from=4), env={"VP_N": 4}, timeout=600,
+        thorough=R.tier(cells=kcells(4, split1_from=3), env={"VP_N": 4}, timeout=900, path_timeout=30,
                         bound="every token-kind list of length <= 4 over the 13 token kinds, every spelling variant"),
         what="a query whose ( [ { ) ] } do not balance is rejected with ValueError",
         oracle="models/query_ref.py balanced (stack bracket matcher)",
@@ -502,17 +504,19 @@ HARNESSES = [
     R.H("or_law", _TA,
         quick=R.tier(cells=_sq([5], 5), timeout=300,
                      bound=_SHAPES_TXT % "(0,(1)),2" + "; A, B from the first 5 sub-queries of SUBQ (enumerated by the solver)"),
-        thorough=R.tier(cells=_sq([4, 5], 8) + _sq([2, 6, 7], 4) + _sq([9], 2), timeout=900,
-                        bound="shapes (0,1),2 and (0,(1)),2 x first 8 sub-queries; (0,1), ((0,1),2), (0,1),(2,3) x first 4; "
-                              "(0,1),(2,(3,4)) x first 2"),
+        thorough=R.tier(cells=_sq([4, 5], 6) + _sq([2, 6], 4) + _sq([7], 3, True) + _sq([9], 2, True), timeout=900,
+                        path_timeout=30,
+                        bound="shapes (0,1),2 and (0,(1)),2 x first 6 sub-queries; (0,1) and ((0,1),2) x first 4; "
+                              "(0,1),(2,3) x first 3; (0,1),(2,(3,4)) x first 2"),
         what="'A || B' matches iff A matches or B matches", oracle="three runs of the real search on the same annotation",
         stubs=_STUB, outside="other shapes / sub-queries; multi-character tags, values, extensions; the bundled schemas"),
     R.H("and_laws", _TA,
         quick=R.tier(cells=_sq([4, 5], 4), timeout=300,
                      bound=_SHAPES_TXT % "(0,1),2 and (0,(1)),2" + "; A, B from the first 4 sub-queries of SUBQ"),
-        thorough=R.tier(cells=_sq([4, 5], 8) + _sq([2, 6, 7], 4) + _sq([9], 2), timeout=900,
-                        bound="shapes (0,1),2 and (0,(1)),2 x first 8 sub-queries; (0,1), ((0,1),2), (0,1),(2,3) x first 4; "
-                              "(0,1),(2,(3,4)) x first 2"),
+        thorough=R.tier(cells=_sq([4, 5], 6) + _sq([2, 6], 4) + _sq([7], 3, True) + _sq([9], 2, True), timeout=900,
+                        path_timeout=30,
+                        bound="shapes (0,1),2 and (0,(1)),2 x first 6 sub-queries; (0,1) and ((0,1),2) x first 4; "
+                              "(0,1),(2,3) x first 3; (0,1),(2,(3,4)) x first 2"),
         what="'A && B' == 'B && A'; it matches only if A and B both match; for plain terms only if two DISTINCT "
              "tags carry them",
         oracle="runs of the real search on the same annotation; distinct-tag witness computed from the tag letters",
@@ -520,15 +524,15 @@ HARNESSES = [
     R.H("and_assoc", _TA,
         quick=R.tier(cells=_sq([4], 3, True), timeout=300,
                      bound=_SHAPES_TXT % "(0,1),2" + "; A, B, C from the first 3 sub-queries of SUBQ"),
-        thorough=R.tier(cells=_sq([4, 5], 4, True) + _sq([6, 7], 3, True), timeout=900,
-                        bound="shapes (0,1),2 and (0,(1)),2 x first 4 sub-queries; ((0,1),2) and (0,1),(2,3) x first 3"),
-        what="'(A && B) && C', 'A && (B && C)' and 'A && B && C' give the same verdict",
-        oracle="three runs of the real search", stubs=_STUB, outside="other shapes / sub-queries"),
+        thorough=R.tier(cells=_sq([4], 4, True) + _sq([5], 3, True) + _sq([6, 7], 2, True), timeout=900, path_timeout=30,
+                        bound="(0,1),2 x first 4 sub-queries; (0,(1)),2 x first 3; ((0,1),2) and (0,1),(2,3) x first 2"),
+        what="'(A && B) && C' and 'A && (B && C)' give the same verdict",
+        oracle="two runs of the real search", stubs=_STUB, outside="other shapes / sub-queries"),
     R.H("term_modes", _TA,
         quick=R.tier(cells=_cells([("VP_SH", [2, 4, 5])]), timeout=300,
                      bound=_SHAPES_TXT % "(0,1), (0,1),2, (0,(1)),2" + "; terms a, b, \"a\", b*, c"),
-        thorough=R.tier(cells=_cells([("VP_SH", [0, 1, 2, 3, 4, 5, 6, 7, 8]), ("VP_QA", [0, 1, 2, 6, 9])]) +
-                        _cells([("VP_SH", [9, 10]), ("VP_QA", [0, 1, 2, 6])]), timeout=900,
+        thorough=R.tier(cells=_cells([("VP_SH", [0, 1, 2, 3, 4, 5, 6, 7, 8])]) +
+                        _cells([("VP_SH", [9, 10]), ("VP_QA", [0, 1, 2, 6])]), timeout=900, path_timeout=30,
                         bound="all shapes up to 4 tags x 5 terms; 5-tag shapes x 4 terms"),
         what="a bare term matches iff some tag has it on its schema path, a quoted term iff some tag is exactly it, "
              "a trailing-star term iff some tag's short form starts with it (case-insensitively)",
@@ -538,15 +542,18 @@ HARNESSES = [
         quick=R.tier(cells=[dict(c, VP_M=6) for c in _cells([("VP_PM", [3, 4]), ("VP_Q", list(range(6)))])],
                      timeout=300,
                      bound="trees (0,1),2 and (0,(1)),2 vs. the same trees with every sibling list reversed; first 6 queries of PERMQ"),
-        thorough=R.tier(cells=[dict(c, VP_M=16) for c in _cells([("VP_PM", list(range(9))), ("VP_Q", list(range(16)))])] +
+        thorough=R.tier(cells=[dict(c, VP_M=16) for c in _cells([("VP_PM", [0, 1, 2, 3, 4, 5])])] +
+                        [dict(c, VP_M=6) for c in _cells([("VP_PM", [6, 7, 8]), ("VP_Q", list(range(6)))])] +
                         [dict(c, VP_M=4) for c in _cells([("VP_PM", [9]), ("VP_Q", list(range(4)))])],
-                        timeout=900, bound="all PERMS pairs up to 4 tags x 16 queries; the 5-tag pair x first 4 queries"),
+                        timeout=1500, path_timeout=30,
+                        bound="the 2- and 3-tag PERMS pairs x all 16 queries; the 4-tag pairs x first 6; the 5-tag pair x first 4"),
         what="the match verdict is the same on an annotation and on the annotation with its siblings reordered",
         oracle="two runs of the real search", stubs=_STUB, outside="other permutations / queries"),
     R.H("search_pure", _TA,
         quick=R.tier(cells=_sq([4, 5], 8), timeout=300,
                      bound=_SHAPES_TXT % "(0,1),2 and (0,(1)),2" + "; first 8 sub-queries of SUBQ"),
-        thorough=R.tier(cells=_sq([2, 4, 5, 6, 7, 8], 16) + _sq([9], 4), timeout=900,
+        thorough=R.tier(cells=[dict(c, VP_M=16) for c in _cells([("VP_SH", [2, 4, 5, 6])])] + _sq([7, 8], 16) + _sq([9], 4),
+                        timeout=900, path_timeout=30,
                         bound="shapes with 2-4 tags x all 16 sub-queries; (0,1),(2,(3,4)) x first 4"),
         what="searching leaves str(annotation) and the tree (object identities, texts, spans) unchanged; a second "
              "search with the same handler and a search with a freshly compiled handler give the same verdict",
